@@ -12,6 +12,7 @@ import (
 
 	"verif/harness/copyx"
 	"verif/harness/gen"
+	"verif/harness/regmodel"
 	"verif/harness/vt"
 )
 
@@ -60,6 +61,142 @@ func genCase(t *rapid.T) copyx.Case {
 	return c
 }
 
+// fanSpecs builds a referrer fan: a subject with 2-7 referrers (some of them
+// referrers of referrers) whose artifact types and annotations come from small
+// pools, so that filters reject some and accept others and listings span pages.
+func fanSpecs(t *rapid.T, sha256Only bool) []gen.NodeSpec {
+	specs := []gen.NodeSpec{
+		{Kind: gen.KBlob, Seed: 1, Size: 2, MT: gen.MTConfig},
+		{Kind: gen.KBlob, Seed: 2, Size: 9, MT: gen.MTLayer},
+		{Kind: gen.KImage, Config: &gen.Ref{N: 0}, Layers: []gen.Ref{{N: 1}}},
+	}
+	manifests := []int{2}
+	k := rapid.IntRange(2, 7).Draw(t, "fanReferrers")
+	for i := 0; i < k; i++ {
+		subj := 2
+		if rapid.IntRange(0, 3).Draw(t, "chain") == 0 {
+			subj = rapid.SampledFrom(manifests).Draw(t, "chainSubject")
+		}
+		s := gen.NodeSpec{Subject: &gen.Ref{N: subj}}
+		switch rapid.IntRange(0, 3).Draw(t, "fanKind") {
+		case 0:
+			s.Kind = gen.KArtifact
+			s.ArtifactType = rapid.SampledFrom(atPool).Draw(t, "fanAT")
+			s.Layers = []gen.Ref{{N: 1}}
+		case 1:
+			s.Kind = gen.KIndex
+			s.ArtifactType = rapid.SampledFrom(atPool).Draw(t, "fanAT")
+		case 2:
+			// artifact type only as config media type
+			mi := rapid.IntRange(0, len(atPool)-1).Draw(t, "fanCfgMT")
+			specs = append(specs, gen.NodeSpec{Kind: gen.KBlob, Seed: 3 + mi, Size: 2 + mi, MT: atPool[mi]})
+			s.Kind = gen.KImage
+			s.Config = &gen.Ref{N: len(specs) - 1}
+		default:
+			s.Kind = gen.KImage
+			s.Config = &gen.Ref{N: 0}
+			s.ArtifactType = rapid.SampledFrom(atPool).Draw(t, "fanAT")
+		}
+		switch rapid.IntRange(0, 4).Draw(t, "fanAnn") {
+		case 0:
+		case 1:
+			// no annotations at all: annotation filters have to fetch the manifest
+			s.NoAnn = true
+			if s.Kind != gen.KIndex {
+				specs = append(specs, gen.NodeSpec{Kind: gen.KBlob, Seed: 50 + i, Size: 3, MT: gen.MTLayer})
+				s.Layers = append(s.Layers, gen.Ref{N: len(specs) - 1})
+			}
+		default:
+			s.Ann = map[string]string{rapid.SampledFrom(annKeys).Draw(t, "fanK"): rapid.SampledFrom(annVals).Draw(t, "fanV")}
+		}
+		specs = append(specs, s)
+		manifests = append(manifests, len(specs)-1)
+	}
+	return specs
+}
+
+// genRemote: the source is a remote.Repository (Referrers API, possibly paginated,
+// or the referrers tag schema), where predecessors are the subject-referrers only.
+func genRemote(t *rapid.T) copyx.Case {
+	max := 12
+	if vt.Thorough() {
+		max = 24
+	}
+	o := gen.DAGOpts{MaxNodes: max, Referrers: true, NoDocker: true, ATPool: atPool, AnnKeys: annKeys, AnnVals: annVals, NoBigBlobs: true, ManifestSHA: true, OnlySHA256: true, SingleMT: true, NoBlobSubj: true, NoAbsent: true, NoForeign: true}
+	c := copyx.GenBase(t, o, []string{"remote"}, []string{"memory"})
+	c.SrcKind, c.DstKind = "remote", "memory"
+	fan := rapid.IntRange(0, 3).Draw(t, "fan") != 0
+	if fan {
+		c.Specs = fanSpecs(t, true)
+	}
+	d := gen.Build(c.Specs)
+	api := rapid.Bool().Draw(t, "referrersAPI")
+	c.SrcProfile = regmodel.Profile{ReferrersAPI: api, PageCap: rapid.SampledFrom([]int{0, 1, 2}).Draw(t, "cap"), LinkStyle: rapid.IntRange(0, 4).Draw(t, "link"), FilterMode: rapid.IntRange(0, 2).Draw(t, "filterMode")}
+	c.RefPage = rapid.SampledFrom([]int{0, 1, 3}).Draw(t, "refPage")
+	var manifests []int
+	for _, id := range d.CanonIDs() {
+		if d.IsManifest(id) {
+			manifests = append(manifests, id)
+		}
+	}
+	if len(manifests) == 0 {
+		c.Root = d.CanonIDs()[0]
+		c.API = "extcopygraph"
+	} else {
+		c.Root = rapid.SampledFrom(manifests).Draw(t, "start")
+		if fan && rapid.IntRange(0, 2).Draw(t, "startAtSubject") != 0 {
+			c.Root = 2
+		}
+		c.API = rapid.SampledFrom([]string{"extcopygraph", "extcopygraph", "extcopy"}).Draw(t, "api")
+	}
+	c.Depth = rapid.SampledFrom([]int{0, 0, 1, 2, 99}).Draw(t, "depth")
+	switch rapid.IntRange(0, 4).Draw(t, "filterMode2") {
+	case 0:
+	case 1, 2:
+		c.FilterAT = rapid.SampledFrom(atRegexes).Draw(t, "atRe")
+	case 3:
+		c.FilterAnnKey = rapid.SampledFrom(annKeys).Draw(t, "annKey")
+		c.FilterAnnRe = rapid.SampledFrom(annRegexes).Draw(t, "annRe")
+	default:
+		c.FilterAT = rapid.SampledFrom(atRegexes).Draw(t, "atRe2")
+		c.FilterAnnKey = rapid.SampledFrom(annKeys).Draw(t, "annKey2")
+		c.FilterAnnRe = rapid.SampledFrom(annRegexes).Draw(t, "annRe2")
+		c.FilterOrder = rapid.IntRange(0, 1).Draw(t, "order")
+	}
+	// a stale referrers-index entry (tag schema only): one referrer vanishes from
+	// the registry without the index being updated
+	if !api && rapid.IntRange(0, 2).Draw(t, "stale") == 0 {
+		var refs []int
+		for _, id := range manifests {
+			for _, e := range d.Nodes[id].Edges {
+				if e.Role == "subject" && id != d.Nodes[c.Root].Canon {
+					refs = append(refs, id)
+				}
+			}
+		}
+		if len(refs) > 0 {
+			c.HasStale, c.StaleRef = true, rapid.SampledFrom(refs).Draw(t, "staleRef")
+			// prefer a referrer without annotations (its index entry carries none, so an
+			// annotation filter has to fetch the vanished manifest) under chained filters
+			var bare []int
+			for _, id := range refs {
+				if d.Nodes[id].Spec.NoAnn {
+					bare = append(bare, id)
+				}
+			}
+			if len(bare) > 0 && rapid.IntRange(0, 3).Draw(t, "staleBare") != 0 {
+				c.StaleRef = rapid.SampledFrom(bare).Draw(t, "staleBareRef")
+				c.FilterAT = `vnd`
+				c.FilterAnnKey = rapid.SampledFrom(annKeys).Draw(t, "staleAnnKey")
+				c.FilterAnnRe = rapid.SampledFrom([]string{"", "good"}).Draw(t, "staleAnnRe")
+				c.FilterOrder = 0
+				c.Depth = 0
+			}
+		}
+	}
+	return c
+}
+
 // keepRef is the reference predicate "this predecessor manifest satisfies the
 // filters", evaluated on the generator's own manifest records.
 func keepRef(c *copyx.Case, d *gen.DAG, p int) bool {
@@ -82,6 +219,9 @@ func keepRef(c *copyx.Case, d *gen.DAG, p int) bool {
 }
 
 func manifestAnnotations(n *gen.Node) map[string]string {
+	if n.Spec.NoAnn {
+		return map[string]string{}
+	}
 	out := map[string]string{"verif.id": fmt.Sprint(n.ID)}
 	for k, v := range n.Spec.Ann {
 		out[k] = v
@@ -121,8 +261,27 @@ func keepStored(c *copyx.Case, d *gen.DAG, p int, stored ocispec.Descriptor) boo
 
 // upward computes the ancestors reached from start following predecessors accepted
 // by keep, with their minimal distance.
+// parentsOf is the source's predecessor relation: every link for the built-in stores,
+// subject links only for a remote repository (its Predecessors are the referrers).
+func parentsOf(d *gen.DAG, remote bool) map[int][]int {
+	if !remote {
+		return d.Parents()
+	}
+	out := map[int][]int{}
+	for _, p := range d.CanonIDs() {
+		for _, e := range d.Nodes[p].Edges {
+			if e.Role == "subject" {
+				out[e.To] = append(out[e.To], p)
+			}
+		}
+	}
+	return out
+}
+
+var remoteSource bool
+
 func upward(d *gen.DAG, stored map[int]bool, start int, keep func(p, child int) bool) map[int]int {
-	parents := d.Parents()
+	parents := parentsOf(d, remoteSource)
 	dist := map[int]int{start: 0}
 	queue := []int{start}
 	for len(queue) > 0 {
@@ -154,6 +313,17 @@ func unionReach(d *gen.DAG, roots map[int]int, maxDist int) map[int]bool {
 	return out
 }
 
+// genFan: the referrer fan on the built-in stores.
+func genFan(t *rapid.T) copyx.Case {
+	c := genCase(t)
+	c.Specs = fanSpecs(t, false)
+	c.Root = 2
+	if rapid.IntRange(0, 2).Draw(t, "fanStartElsewhere") == 0 {
+		c.Root = rapid.IntRange(0, len(c.Specs)-1).Draw(t, "fanStart")
+	}
+	return c
+}
+
 func runCase(c copyx.Case) (res vt.Result, fail *vt.Fail) {
 	e, f := copyx.Setup(&c)
 	if f != nil {
@@ -162,12 +332,16 @@ func runCase(c copyx.Case) (res vt.Result, fail *vt.Fail) {
 	defer e.Close()
 	d := e.D
 	ctx := context.Background()
+	remoteSource = c.SrcKind == "remote"
 	start := d.Nodes[c.Root].Canon
 	stored := map[int]bool{}
 	for _, id := range d.CanonIDs() {
 		if !d.Nodes[id].Spec.Absent {
 			stored[id] = true
 		}
+	}
+	if c.HasStale {
+		delete(stored, d.Nodes[c.StaleRef].Canon)
 	}
 	filtered := c.FilterAT != "" || c.FilterAnnKey != ""
 	// descriptors as the source reports them (for attributing the known finding)
@@ -179,7 +353,13 @@ func runCase(c copyx.Case) (res vt.Result, fail *vt.Fail) {
 	descDiffers := false
 	if filtered {
 		for _, id := range d.CanonIDs() {
+			if remoteSource && (!d.IsManifest(id) || !stored[id]) {
+				continue // a repository lists referrers of manifests only
+			}
 			ps, err := e.RawSrc.Predecessors(ctx, d.Nodes[id].Desc)
+			if err != nil && c.HasStale {
+				continue
+			}
 			if err != nil {
 				return res, vt.Failf("harness/src-preds", "%v", err)
 			}
@@ -222,7 +402,7 @@ func runCase(c copyx.Case) (res vt.Result, fail *vt.Fail) {
 	}
 	rejected, accepted := 0, 0
 	if filtered {
-		parents := d.Parents()
+		parents := parentsOf(d, remoteSource)
 		for x := range upAll {
 			for _, p := range parents[x] {
 				if !stored[p] {
@@ -249,7 +429,7 @@ func runCase(c copyx.Case) (res vt.Result, fail *vt.Fail) {
 	{
 		seen := map[int]int{}
 		for a := range upRef {
-			if len(d.Parents()[a]) == 0 || true {
+			if true {
 				for id := range d.Reach(a, true) {
 					seen[id]++
 				}
@@ -263,6 +443,13 @@ func runCase(c copyx.Case) (res vt.Result, fail *vt.Fail) {
 	}
 	res.NonTrivial = len(upAll) >= 2 && (shared || cut || (rejected > 0 && accepted > 0) || c.SrcKind == "oci-ro" || c.SrcKind == "oci-tar")
 
+	if c.HasStale {
+		res.Classes = append(res.Classes, "stale-referrers-index-entry")
+		if out.Err != nil {
+			// a listed predecessor whose manifest is gone: reporting that is fine
+			return res, nil
+		}
+	}
 	if out.Err != nil {
 		return res, vt.Failf("C03/fault-free-extended-copy-failed", "%s from %s failed: %v", c.API, c.SrcKind, out.Err)
 	}
@@ -334,7 +521,11 @@ func filterAbsent(d *gen.DAG, set map[int]bool) map[int]bool {
 }
 
 func TestMain(m *testing.M) {
-	vt.Main(m, "C03", vt.NewLeg("main", 1500, 4000, 16, genCase, runCase))
+	vt.Main(m, "C03",
+		vt.NewLeg("main", 1500, 4000, 16, genCase, runCase),
+		vt.NewLeg("remote", 1200, 3000, 8, genRemote, runCase),
+		vt.NewLeg("fan", 800, 2500, 8, genFan, runCase),
+	)
 }
 
 func TestLegs(t *testing.T)   { vt.TestLegs(t) }
